@@ -58,6 +58,7 @@ from .. import util
 
 ID = "C20"
 LEVEL = "exploration"
+TECHNIQUE = "runtime monitoring: polynomial-in-the-library's-own-flux-kernel oracle (I+A, I+A+A^2/2+A^3/6) at the noise floor + bitwise scratch-garbage differential; known finding classified by matching the specific polynomial"
 TITLE = "Time-stepping kernels realise their nominal integration scheme"
 RULE = (
     "per kernel family (advection 2-D / 3-D scalar / 3-D vector, diffusion 2-D / 3-D scalar / 3-D vector, vortex "
